@@ -551,8 +551,12 @@ def plan(prop, tier, seed, budget):
             assumptions=COMMON_ASSUME + ['float arithmetic of the build under test (clang, x86-64 SSE) is what the grid enumeration evaluates'],
         )
     elif prop == 'C20':
+        def c20_disc(ctx):
+            import c20_discover
+            return c20_discover.run(ctx)
         P = dict(
             level='exploration',
+            py=[c20_disc],
             builds=[('stray', 'asan'), ('mem', 'asan'), ('array', 'asan')] + ([] if q else [('stray', 'rel')]),
             jobs=[g1_jobs('stray', ['table'], 100000), g2_jobs('stray', 1500000 if q else 10000000, workers=12),
                   g2_jobs('mem', 150000 if q else 1500000, workers=2), g2_jobs('array', 100000 if q else 1000000, workers=2)] +
@@ -567,6 +571,8 @@ def plan(prop, tier, seed, budget):
                  '("objects moved only with the provided functions never abort, throughout the histories of C05 and C14") is additionally run '
                  'on the C05 and C14 history generators (harnesses mem, array) with --prop C20: there only an abort in a well-formed history '
                  '(clause abort.unexpected) or an ASan report is a failure, model clauses of C05/C14 are left to their own checks. '
+                 'Functions that take one of the five object types and are NOT in the table (added to the headers later) are discovered from the '
+                 'prototypes (gcc -aux-info) and get a generated client program per argument position that must die with SIGABRT on a stray copy. '
                  'G1 = the whole table (810 entries), exhaustive. Non-trivial: stray copy of a non-empty object '
                  '(for two-object entry points: in the second argument position). Distinct = distinct case bytes.',
             assumptions=COMMON_ASSUME + ['functions that only (re)initialise (*_init, guarded_ptr_set, the dst of guarded_ptr_copy) and cstl_array_size are outside the statement'],
